@@ -72,6 +72,7 @@ class C13(Check):
     rule = "non-trivial: the two builds put the gene on opposite strands, or the evidence is noisy, or the planted alleles carry indels/MNVs or a fusion"
     assumptions = [
         "scores are compared within the documented precision 1e-2; everything else exactly, in RefSeq notation",
+        "alignment level: for samples with indel alleles only the calls are compared, not the scores (read ends fall differently around the indel in the two builds, so the realigned counts - the evidence - differ)",
         "a difference in which of several equal-score refinements is reported (both being members of the other build's complete optimal set) is classified as the known tie-choice finding D7, everything else is a violation",
     ]
 
@@ -116,8 +117,6 @@ class C13(Check):
         for spec in self.worlds_()[1:]:
             for i, comps in enumerate(E2E):
                 if not spec.pseudo and any(k.split(":")[0] in ("left", "right") for k, _ in comps):
-                    continue
-                if self.tier == "quick" and (i + self.seed) % 2:
                     continue
                 yield ("e2e", spec, comps, (), 0.0)
 
@@ -312,7 +311,11 @@ class C13(Check):
                 out[build] = [("error", str(ex)[:60])]
         v = []
         a, b = out["hg19"], out["hg38"]
-        same = len(a) == len(b) and all(x[1:] == y[1:] and (x[0] == y[0] or abs(x[0] - y[0]) <= 1e-2) for x, y in zip(a, b))
+        # with indel alleles the read tiling (which reads carry the indel near an end) differs between the
+        # builds, i.e. the evidence itself is not identical: the calls must agree, the scores need not
+        has_indel = any(op[:3] in ("ins", "del") for k, al in comps if isinstance(al, str)
+                        for _, op in simreads.db_variants(w, al))
+        same = len(a) == len(b) and all(x[1:] == y[1:] and (has_indel or x[0] == y[0] or abs(x[0] - y[0]) <= 1e-2) for x, y in zip(a, b))
         if not same:
             v.append(("builds/e2e-differs", f"{spec.strands} {comps}: hg19 {a[:2]} vs hg38 {b[:2]}"))
         return Outcome(v, key=("e2e", a[0][-1] if a else None), nontrivial=True, note={"sample": comps, "hg19": [x[-1] for x in a], "hg38": [x[-1] for x in b]})
